@@ -365,7 +365,7 @@ PROPS = {
     },
     "C20": {
         "units": [
-            {"pkg": "./c20", "run": "TestC20LogLine|TestC20EachField|TestC20Uint16|TestC20I32toa|TestC20UUID|TestC20STS|TestC20ProxyLogging|TestC20ProxyFinalStatus|TestC20LogTargetFaults|TestC20RequestURLFields|TestC20FailedUpgradeIsLogged|TestC20LogAfterSkippedRedirect", "shards": 4, "shards_thorough": 16, "timeout": 300},
+            {"pkg": "./c20", "run": "TestC20LogLine|TestC20EachField|TestC20Uint16|TestC20I32toa|TestC20UUID|TestC20STS|TestC20ProxyLogging|TestC20ProxyFinalStatus|TestC20LogTargetFaults|TestC20RequestURLFields|TestC20FailedUpgradeIsLogged|TestC20LogAfterSkippedRedirect|TestC20BodySizeWhenTheClientGoesAway", "shards": 4, "shards_thorough": 16, "timeout": 300},
             {"pkg": "./mainpkg", "run": "^TestC20", "shards": 2, "shards_thorough": 4, "timeout": 300},
             {"pkg": "./c20", "run": "TestC20ConcurrentLogging|TestC20ConcurrentUUID", "race": True, "shards": 2, "shards_thorough": 4, "timeout": 300},
         ],
